@@ -76,6 +76,11 @@ func scriptFor0(o, id, route string, stream bool) backend.Script {
 		return backend.Script{Steps: []backend.Step{{Op: "head", Status: status, Headers: hs}, {Op: "raw", Raw: body}, {Op: "close"}}}
 	}
 	switch o {
+	case "slow-ok":
+		// a complete answer that takes a while: half of it, 250 ms of silence, the rest (a client that
+		// leaves after the headers leaves an exchange that is still open)
+		hs := [][2]string{{"X-Backend-Id", id}, {"Content-Type", ct}, {"Content-Length", fmt.Sprint(len(okBody))}, {"Connection", "close"}}
+		return backend.Script{Steps: []backend.Step{{Op: "head", Status: 200, Headers: hs}, {Op: "raw", Raw: okBody[:len(okBody)/2]}, {Op: "pause", Ms: 250}, {Op: "raw", Raw: okBody[len(okBody)/2:]}, {Op: "close"}}}
 	case "s500":
 		return full(500, `{"error":{"message":"boom","type":"server_error"}}`)
 	case "s404":
@@ -353,7 +358,13 @@ func runCase(c Case) []ev.Violation {
 	breakerSkips := c.Engine == "olla" && (anyFailing || c.AbortEarly) && ct > attempts && cf >= ct-attempts
 	// an attempt cancelled by its client's abort before the backend had read the request is an
 	// attempt Olla made (and records) that no backend saw
-	abortedEarly := ct > attempts && int64(ct-attempts) <= aborted
+	// (only when clients leave before any answer; a client that saw response headers left an attempt
+	// the backend has certainly seen, where at most one such surplus has ever been observed)
+	surplusOK := aborted
+	if !c.AbortEarly && surplusOK > 1 {
+		surplusOK = 1
+	}
+	abortedEarly := ct > attempts && int64(ct-attempts) <= surplusOK
 	if abortedEarly {
 		rec.Class("attempts-recorded-exceed-backend-view-by-client-aborts")
 	}
@@ -373,7 +384,7 @@ func runCase(c Case) []ev.Violation {
 		if t != s+f {
 			bad("endpoint-total-not-success-plus-failure", "endpoint %d (%s): total +%d success +%d failure +%d: %s", i, c.Backends[i], t, s, f, desc)
 		}
-		failing := c.Backends[i] != "ok" && c.Backends[i] != "s500" && c.Backends[i] != "s404"
+		failing := c.Backends[i] != "ok" && c.Backends[i] != "slow-ok" && c.Backends[i] != "s500" && c.Backends[i] != "s404"
 		switch {
 		case t == perBackend[u]:
 		case c.Engine == "olla" && (failing || c.AbortEarly) && t > perBackend[u] && f >= t-perBackend[u]:
@@ -401,7 +412,7 @@ func runCase(c Case) []ev.Violation {
 			// recorded as a success, whatever its status. Anything else is reported under its own signature.
 			var answered int64
 			for i, o := range c.Backends {
-				if o == "ok" || o == "s500" || o == "s404" {
+				if o == "ok" || o == "slow-ok" || o == "s500" || o == "s404" {
 					answered += perBackend[urls[i]]
 				}
 			}
@@ -451,7 +462,7 @@ func runCase(c Case) []ev.Violation {
 	return vs
 }
 
-var outcomes = []string{"ok", "ok", "s500", "s404", "rst-mid", "stall-mid", "close-mid", "rst0", "refuse"}
+var outcomes = []string{"ok", "ok", "slow-ok", "s500", "s404", "rst-mid", "stall-mid", "close-mid", "rst0", "refuse"}
 
 func genCase(t *rapid.T) Case {
 	c := Case{
@@ -469,7 +480,7 @@ func genCase(t *rapid.T) Case {
 		c.Backends = []string{
 			rapid.SampledFrom([]string{"refuse", "rst0"}).Draw(t, "failover"),
 			rapid.SampledFrom([]string{"rst-mid", "stall-mid", "rst-mid", "close-mid"}).Draw(t, "mid"),
-			rapid.SampledFrom([]string{"ok", "ok", "s500", "s404"}).Draw(t, "third"),
+			rapid.SampledFrom([]string{"ok", "slow-ok", "s500", "s404"}).Draw(t, "third"),
 		}
 		c.Backends = rapid.Permutation(c.Backends).Draw(t, "order")
 		if c.Clients < 8 {
@@ -492,10 +503,17 @@ var _ = strings.Join
 
 func TestC19(t *testing.T) {
 	defer rig.StopAll()
-	rec.SetRule("workloads of 1..64 concurrent clients x 1..6 requests through the full stack; every endpoint (<=3) has a fixed scripted outcome {ok, 500, 404, reset mid-body, stall mid-body, close mid-body (short of Content-Length), reset before headers, refuse}; proxy, Anthropic translated and passthrough routes (stream on/off), 3 balancers, 2 engines, optional client aborts (after the response headers, or 30 ms after sending while the backends take 120 ms to answer). Gauges are sampled during the run and at quiescence; collector (global and per endpoint), engine and translator counters are compared as deltas with the harness's own tally of client observations and backend-side attempts. Sub-check 'inflight': 1..64 simultaneous clients against never-seen endpoints that are dead (refuse / reset before any byte) or hold the request until released; once all requests are parked the gauges must be exact (hold = requests parked there, dead = 0). Sub-check 'rejected': 0..4 served requests followed by 1..6 requests Olla refuses itself (every endpoint offline, or a model nobody lists) on the translated, passthrough and proxy routes: none of the refused ones may be booked as a success by the translator or the collector, the translator total counts every request once. non-trivial = a failover-inducing backend and a mid-stream failing backend among >=8 concurrent clients; distinct by workload")
+	rec.SetRule("workloads of 1..64 concurrent clients x 1..6 requests through the full stack; every endpoint (<=3) has a fixed scripted outcome {ok, ok answered in two halves 250 ms apart, 500, 404, reset mid-body, stall mid-body, close mid-body (short of Content-Length), reset before headers, refuse}; proxy, Anthropic translated and passthrough routes (stream on/off), 3 balancers, 2 engines, optional client aborts (after the response headers, or 30 ms after sending while the backends take 120 ms to answer). Gauges are sampled during the run and at quiescence; collector (global and per endpoint), engine and translator counters are compared as deltas with the harness's own tally of client observations and backend-side attempts. Sub-check 'inflight': 1..64 simultaneous clients against never-seen endpoints that are dead (refuse / reset before any byte) or hold the request until released; once all requests are parked the gauges must be exact (hold = requests parked there, dead = 0). Sub-check 'rejected': 0..4 served requests followed by 1..6 requests Olla refuses itself (every endpoint offline, or a model nobody lists) on the translated, passthrough and proxy routes: none of the refused ones may be booked as a success by the translator or the collector, the translator total counts every request once. non-trivial = a failover-inducing backend and a mid-stream failing backend among >=8 concurrent clients; distinct by workload")
 	rec.Assume("per-model counters are not recorded anywhere in the request path (RecordModelRequest has no caller), so they are trivially conserved and not judged")
 	if ev.Replay(t, rec, "workload", runCase) || ev.Replay(t, rec, "inflight", runFlight) || ev.Replay(t, rec, "rejected", runRejected) {
 		return
+	}
+	// fixed probes: clients that leave after the response headers while the answer is still on its way
+	for i, e := range []string{"olla", "sherpa"} {
+		if i%rec.Shards() == rec.Shard() {
+			ev.Direct(rec, "workload", Case{Engine: e, Balancer: "priority", Backends: []string{"slow-ok"}, Clients: 8, PerCli: 3, Route: "proxy", Abort: 3}, runCase)
+			ev.Direct(rec, "workload", Case{Engine: e, Balancer: "round-robin", Backends: []string{"slow-ok", "ok"}, Clients: 8, PerCli: 3, Route: "anthropic-translated", Stream: true, Abort: 2}, runCase)
+		}
 	}
 	ev.Check(t, rec, "workload", rec.Pick(30, 400), genCase, runCase)
 	ev.Check(t, rec, "inflight", rec.Pick(30, 700), genFlight, runFlight)
